@@ -471,9 +471,12 @@ def extract_pp(incdir):
                     if macro != "defined":
                         conds.append(("%s:%d" % (os.path.relpath(path, REPO), i + 1), macro))
             txt = "\n".join(lines)
-            for m in re.finditer(r"#\s*ifndef\s+SIGCXX_DISABLE_DEPRECATED(.*?)#\s*endif", txt, re.S):
-                for nm in re.findall(r"^([A-Za-z_]\w*)\s*\(", m.group(1), re.M):
-                    dep_only.append(nm)
+            for m in re.finditer(r"#\s*ifn?def\s+SIGCXX_DISABLE_DEPRECATED(.*?)#\s*endif", txt, re.S):
+                # every identifier that is called or declared with a parameter list inside the guarded text
+                body = re.sub(r"//[^\n]*|/\*.*?\*/", "", m.group(1), flags=re.S)
+                for nm in re.findall(r"\b([A-Za-z_]\w*)\s*(?:<[^;(){}]*>)?\s*\(", body):
+                    if nm not in ("decltype", "sizeof", "static_assert", "typename", "template", "return", "if", "for", "while"):
+                        dep_only.append(nm)
     return sorted(conds), sorted(set(dep_only))
 
 
